@@ -114,7 +114,9 @@ EXTRA = {
     'convert_parbreak': {'ensures': ['[break_count C08] r@ == repeat_doc(DocV::Hardline, count_newlines_s({n}.text_s()))'], 'serves': 'C08',
                          'proof': ['lemma_repeat_doc_hardline(count_newlines_s({n}.text_s()), self.unit_s()); lemma_words_repeat_hardline(count_newlines_s({n}.text_s()));']},
     'convert_pattern': {'ensures': [VERBATIM], 'serves': 'C07', 'proof': ['reveal_strlit("_");']},
-    'convert_code_block': {'ensures': ['[verbatim_when_body_disabled C07] code_body_disabled(self.store_s(), {n}) ==> r@ == txt({n}.full_text_s())'], 'serves': 'C07'},
+    'convert_code_block': {'ensures': ['[verbatim_when_body_disabled C07] code_body_disabled(self.store_s(), {n}) ==> r@ == txt({n}.full_text_s())'], 'serves': 'C07',
+                           'closures': ['@replace "nodes.extend(code.to_untyped().children())" => "vp_vec_extend(&mut nodes, code.to_untyped().children())" rule R9',
+                                        '@replace "nodes.into_iter()" => "vp_vec_into_iter(nodes)" rule R9']},
 }
 
 
@@ -286,7 +288,7 @@ LISTC = {
     'convert_destructuring': (1, 'DestructuringItem', ['(', ')', ',']),
     'convert_params': (1, 'Param', ['(', ')', ',']),
     'convert_parenthesized_impl': (0, 'Pattern', ['(', ')', '']),
-    'convert_code_block': (0, 'Expr', ['{', '}', '']),
+    'convert_code_block': (0, 'Expr', ['{', '}', ''], 'expr'),
 }
 
 
@@ -367,7 +369,8 @@ def main():
                           ' lemma_words_repeat_hardline(count_newlines_s(%s.text_s())); ' % (cp, cp, cp, cp)) + ' '.join('reveal_strlit("%s");' % l for l in alllits)
             out.append('    proof: pf_leaf_text(%s); pf_children(%s); reveal_with_fuel(tr, 4); reveal_with_fuel(nest_ok, 4); lemma_repeat_doc_hardline(count_newlines_s(%s.text_s()), self.unit_s());%s' % (cp, cp, cp, wproof))
         if fn in LISTC:
-            k, ty, lits = LISTC[fn]
+            k, ty, lits = LISTC[fn][:3]
+            pn = LISTC[fn][3] if len(LISTC[fn]) > 3 else 'node'
             out.append('    proof { %s reveal_with_fuel(tr, 4); }' % ' '.join('reveal_strlit("%s");' % l for l in lits))
             if fn in W_PROVED:
                 # W: the children that are not items are delimiters, separators and whitespace -- wordless; a `#` introduces an item
@@ -378,13 +381,13 @@ def main():
                 out.append('        assert forall|s: Seq<Seq<char>>| #[trigger] (s + e) == s by { assert(s + e =~= s); }')
                 out.append('        assert forall|s: Seq<Seq<char>>| #[trigger] (e + s) == s by { assert(e + s =~= s); }')
                 out.append('    }')
-            out.append('@closure %d params "ctx: Context, node: %s<\'a>" ret "(d: ArenaDoc<\'a>)"' % (k, ty))
+            out.append('@closure %d params "ctx: Context, %s: %s<\'a>" ret "(d: ArenaDoc<\'a>)"' % (k, pn, ty))
             out.append('  requires')
-            out.append('    - node.wf() && tree_wf(node.node())')
+            out.append('    - %s.wf() && tree_wf(%s.node())' % (pn, pn))
             out.append('  ensures')
             out.append('    - [item_docs_closed C04 C06 C12] doc_closed(d@, self.unit_s())')
             if fn in W_PROVED:
-                out.append('    - [item_words_preserved C01 C06] unmarked(self.store_s(), node.node()) ==> wst(d@) && wd(d@) == sig_leaves(node.node())')
+                out.append('    - [item_words_preserved C01 C06] unmarked(self.store_s(), %s.node()) ==> wst(d@) && wd(d@) == sig_leaves(%s.node())' % (pn, pn))
         if fn in FLOW_EXTRA:
             out.append('  ensures')
             for e in FLOW_EXTRA[fn]:
